@@ -82,3 +82,11 @@ func PoolTake(p interface{}, i int) interface{} { return nil }
 func PoolLen(p interface{}) int                 { return 0 }
 func SliceLen(x interface{}) int                { return 0 }
 func SliceSwap(x interface{}, i, j int)         {}
+
+// ---- modelled index files (C17; engine-only) ----
+
+// SetFiles gives the list of metric data files the searcher's directory listing returns.
+func SetFiles(names []string) {}
+
+// FileSet defines a ghost file as a sequence of big-endian 64-bit words, cut at cutBytes bytes.
+func FileSet(name string, words []uint64, cutBytes uint64) {}
